@@ -127,7 +127,7 @@ func (x *Exec) locOf(v Val) *Loc {
 }
 
 func (x *Exec) safety(st *State, fr *Frame, kind string, pos token.Pos, goal string) {
-	if !x.noSafety {
+	if !x.noSafety && !x.skipSafety {
 		x.oblige(st, kind, fr.propTags, pos, goal, "")
 	}
 	x.assume(st, goal)
